@@ -124,13 +124,20 @@ def run(prop, tier):
                 want = os.path.join(tmpd, tmpl).format(start=reg.start, end=reg.end, duration=reg.duration)
                 if viol is None and (name != want or not os.path.exists(want)):
                     viol = {"what": "placeholders filled as %r, expected %r" % (name, want)}
-                for pth in (want, Path(want)):
+                # the target exists now: exists_ok=False must refuse, whether the name is given expanded or as the template, str or Path
+                for pth in (want, Path(want), os.path.join(tmpd, tmpl)):     # (a Path is taken literally by save(): no placeholders there)
+                    before = open(want, "rb").read()
+                    other = au.AudioRegion(bytes(len(reg.data)), reg.sr, reg.sw, reg.ch, start=reg.start) if hasattr(reg, "start") else reg
                     try:
-                        reg.save(pth, exists_ok=False)
+                        other.save(pth, exists_ok=False)
                         if viol is None:
-                            viol = {"what": "exists_ok=False overwrote an existing file (%s)" % type(pth).__name__}
+                            viol = {"what": "exists_ok=False overwrote an existing file (name given as %s %r, target %r)" % (type(pth).__name__, str(pth), want)}
                     except FileExistsError:
                         pass
+                    except Exception:
+                        pass
+                    if viol is None and open(want, "rb").read() != before:
+                        viol = {"what": "exists_ok=False changed the contents of an existing file (name given as %s %r)" % (type(pth).__name__, str(pth))}
         if not regs and viol is None:
             viol = {"what": "harness: no region to test placeholders with"}
     finally:
